@@ -24,7 +24,7 @@ ASSUMPTIONS = [
 
 
 def shards(tier, seed):
-    n = 1 if tier == 'quick' else 16
+    n = 8 if tier == 'quick' else 16
     return [dict(i=i, n=n) for i in range(n)]
 
 
@@ -137,8 +137,8 @@ def perm_case(sink, seed, idx):
 
 
 def run_shard(sink, tier, seed, shard):
-    n_trees = harness.scale(2500, 250000, tier)
-    n_perm = harness.scale(400, 40000, tier)
+    n_trees = harness.scale(16000, 250000, tier)
+    n_perm = harness.scale(2400, 40000, tier)
     k = 6 if tier == 'quick' else 8
     opts = gen.all_opts()
     i0, step = (shard or {}).get('i', 0), (shard or {}).get('n', 1)
